@@ -2,9 +2,11 @@
 
    src/main.rs  compile_to_ir_using_alpha:
        let mut path = out_dir.to_path_buf();
-       path.push(filepath.clone());
+       path.extend(filepath.components().filter(|x| !matches!(x, Prefix(_) | RootDir)));
        path.set_extension("pn.ll");
+   (at the pinned commit: `path.push(filepath.clone())` - D17, `push_pinned` below)
    std::path::PathBuf::push       an absolute argument REPLACES the path, a relative one is appended
+   PathBuf::extend                pushes the components one by one; without the root they are all relative
    std::path::PathBuf::set_extension  replaces the extension of the file name (the part after its last
                                   '.', unless that '.' is the first character), appends one when there is none
 
@@ -20,8 +22,10 @@ Record path := mkpath { absolute : bool; comps : list name }.
 Definition DOT : N := 46.
 
 (* PathBuf::push *)
-Definition push (base p : path) : path :=
+Definition push_pinned (base p : path) : path :=
   if absolute p then p else mkpath (absolute base) (comps base ++ comps p).
+(* PathBuf::extend with the components other than the root *)
+Definition push (base p : path) : path := mkpath (absolute base) (comps base ++ comps p).
 
 (* position of the last DOT of a name, counted from the end: the suffix after it *)
 Fixpoint has_dot (n : name) : bool :=
@@ -55,6 +59,8 @@ Fixpoint set_ext_comps (cs : list name) : list name :=
 
 Definition ll_path (out_dir module : path) : path :=
   let p := push out_dir module in mkpath (absolute p) (set_ext_comps (comps p)).
+Definition ll_path_pinned (out_dir module : path) : path :=
+  let p := push_pinned out_dir module in mkpath (absolute p) (set_ext_comps (comps p)).
 
 (* a module file named `<something>.pn` *)
 Fixpoint list_eqb (a b : name) : bool :=
@@ -68,4 +74,4 @@ Fixpoint ends_with (suffix n : name) : bool :=
 Definition is_pn_name (n : name) : bool :=
   match n with [] => false | c :: r => ends_with (DOT :: PN) r end.     (* at least one character before ".pn" *)
 Definition is_pn_module (m : path) : bool :=
-  negb (absolute m) && match rev (comps m) with n :: _ => is_pn_name n | [] => false end.
+  match rev (comps m) with n :: _ => is_pn_name n | [] => false end.
